@@ -143,7 +143,9 @@ func (pw *prometheusWrapper) labelsToMap(labels []metrics.T) (ret map[string]str
 	}
 
 	for _, label := range labels {
-		ret[label.Name] = label.Value
+		// label values can carry request data (e.g. a watch prefix): prometheus panics on values that are not valid
+		// UTF-8, and that panic would take the whole process down from a background goroutine
+		ret[label.Name] = strings.ToValidUTF8(label.Value, "\uFFFD")
 	}
 	return
 }
